@@ -21,11 +21,21 @@ EXPLANATION = (
     "commit inside the guarded region -- after a failure past the commit, the retry (or the next run) takes the guard's skip branch and the "
     "later writes are lost; C22.2 no destructive mutation of backend in-memory state (pop/del/clear) precedes a commit point in a retried "
     "method; C22.3 db_retry rolls the session back before retrying and re-raises when attempts are exhausted; C22.4 every public method of "
-    "RedunBackendDb that commits is decorated with @db_retry."
+    "RedunBackendDb that commits is decorated with @db_retry; C22.5 in every @db_retry method each direct session write (add/add_all/merge/delete, Query.update/delete, "
+    "execute(update/insert/delete)) reaches a commit point on every path to the method's end (accepted idiom: `add_all(A); if A or ...: commit()` -- nothing was "
+    "added on the false edge), because rows left pending are discarded by the rollback of a later, unrelated retried call."
 )
 
 DB = "redun/backends/db/__init__.py"
 WRITE_ATTRS = {"add", "add_all", "merge", "delete", "execute", "update"}
+
+
+# (method, write prefix) -> why a path without commit is harmless.  One named write each; anything else is reported.
+PENDING_EXEMPT = {
+    ("record_tags", "self.session.query(Tag).filter(Tag.tag_hash.in_(parents)).up"): "re-marks the parents of the tags written by this call as superseded; it is committed together with "
+    "them by `if new_tags or new_tag_edits: commit`, and when neither a tag nor an edit is new every parent->tag edit already exists, whose creation (same statement, "
+    "same commit) already made the parent non-current, so the UPDATE changes no row",
+}
 
 
 def _node_writes(node_ast, commits, writers) -> list[str]:
@@ -152,6 +162,65 @@ def run(ctx):
                 )
         else:
             r2.good(f"{db.rel}:RedunBackendDb.{name}:memory-idempotent")
+
+    # ---- C22.5 no pending write escapes a retried method ----
+    r5 = ctx.rule("C22.5", "a retried method commits every row it writes before returning", floor=10)
+    for name, fn in sorted(retried.items()):
+        cfg = CFG(fn)
+        node_commits = {}
+        for n in cfg.nodes:
+            if n.kind in ("stmt", "test") and n.ast is not None and not isinstance(n.ast, (FuncNode, ast.ClassDef, ast.Try)):
+                node_commits[n] = any(True for c in _walk_own(n) if isinstance(c, ast.Call) and (is_commit_call(c) or ((call_name(c) or "").startswith("self.") and (call_name(c) or "").count(".") == 1 and commits.get((call_name(c) or "")[5:]))))
+        commit_nodes = [n for n, v in node_commits.items() if v]
+        nw = 0
+        for n in cfg.nodes:
+            if n.kind not in ("stmt", "test") or n.ast is None or isinstance(n.ast, (FuncNode, ast.ClassDef, ast.Try)):
+                continue
+            ws = []
+            for c in _walk_own(n):
+                if not isinstance(c, ast.Call):
+                    continue
+                la, d = last_attr(c), call_name(c) or ""
+                if la in ("add", "add_all", "merge", "delete") and d.startswith("self.session."):
+                    ws.append(src(c)[:60])
+                elif la == "update" and c.args and isinstance(c.args[0], ast.Dict) and c.args[0].keys and all(isinstance(k, ast.Attribute) for k in c.args[0].keys):
+                    ws.append(src(c)[:60])  # Query.update({Model.col: value})
+                elif la == "delete" and not c.args and "query" in src(c.func.value).lower():
+                    ws.append(src(c)[:60])  # Query.delete()
+                elif la == "execute" and d.startswith("self.session.") and c.args and any(isinstance(x, ast.Call) and last_attr(x) in ("update", "insert", "delete") for x in ast.walk(c.args[0])):
+                    ws.append(src(c)[:60])
+            # idiom: `session.add_all(A); session.add_all(B); if A or B: session.commit()` -- on the false edge nothing was added
+            added = {src(c.args[0]) for x in cfg.nodes if x.kind == "stmt" and x.ast is not None for c in _walk_own(x) if isinstance(c, ast.Call) and last_attr(c) == "add_all" and c.args and isinstance(c.args[0], ast.Name)}
+            empty_edges = []
+            for t in cfg.nodes:
+                if t.kind == "test" and isinstance(t.ast, ast.expr):
+                    parts = t.ast.values if isinstance(t.ast, ast.BoolOp) and isinstance(t.ast.op, ast.Or) else [t.ast]
+                    if all(isinstance(x, ast.Name) and x.id in added for x in parts):
+                        empty_edges.append((t, {x.id for x in parts}))
+            for w in ws:
+                nw += 1
+                through = list(commit_nodes)
+                wname = None
+                m_add = [c for c in _walk_own(n) if isinstance(c, ast.Call) and last_attr(c) == "add_all" and c.args and isinstance(c.args[0], ast.Name)]
+                if m_add and w.startswith("self.session.add_all"):
+                    wname = src(m_add[0].args[0])
+                    for t, names in empty_edges:
+                        if wname in names:
+                            through += cfg.edge_nodes(t, "F")
+                if (name, w[:40]) in PENDING_EXEMPT or any(name == k[0] and w.startswith(k[1]) for k in PENDING_EXEMPT):
+                    r5.good(f"{db.rel}:RedunBackendDb.{name}:pending({w[:40]})", PENDING_EXEMPT[next(k for k in PENDING_EXEMPT if name == k[0] and w.startswith(k[1]))])
+                    continue
+                ok = node_commits.get(n) or cfg.must_pass(n, through)
+                r5.check(
+                    bool(ok),
+                    f"{db.rel}:RedunBackendDb.{name}:pending({w[:40]})",
+                    f"`{w}` (line {n.lineno}) can reach the end of {name} without a commit: the row stays pending in the shared session, and the rollback that "
+                    "@db_retry performs when a *later* backend call hits a transient OperationalError silently discards it (the later call is retried, this one is not)",
+                    db.rel,
+                    n.lineno,
+                )
+        if not nw:
+            r5.good(f"{db.rel}:RedunBackendDb.{name}:no-direct-write")
 
     # ---- C22.3 the wrapper ----
     r3 = ctx.rule("C22.3", "db_retry: rollback before retry, bare raise when exhausted, loop re-invokes", floor=3)
